@@ -91,8 +91,13 @@ Walk(f, l, h, v, q, acc) ==
               [] x[1] = "bounds" -> Walk(f, x[2], x[3], v, Tail(q), acc)
               [] OTHER           -> Walk(f, l, h, v, Tail(q), Append(acc, <<Num(l, h, f, Eff(v)), Den(f, Eff(v))>>))
 
+\* longer histories of one shape: committee data appear, disappear and re-appear between updates (C18_NoHistory: the
+\* adapted delta is a function of the current inputs only, whatever was published or missing before)
+AltVals == {NoData, 0, 2, 5}
+Alternating == {<< <<"var", a, 0>>, <<"update", 0, 0>>, <<"var", b, 0>>, <<"update", 0, 0>>, <<"var", c, 0>>, <<"update", 0, 0>> >> : a \in AltVals, b \in AltVals, c \in AltVals}
+
 Cases == {[fn |-> f, lo |-> b[1], hi |-> b[2], actions |-> q, expect |-> Walk(f, b[1], b[2], NoData, q, <<>>)]
-          : f \in Fns, b \in Bounds, q \in {r \in SeqsUpTo(MaxLen) : \E i \in 1..Len(r) : r[i][1] = "update"}}
+          : f \in Fns, b \in Bounds, q \in {r \in SeqsUpTo(MaxLen) : \E i \in 1..Len(r) : r[i][1] = "update"} \cup Alternating}
 
 Curve == {[fn |-> f, n |-> k, fnum |-> FNum(f, k), fden |-> FDen(f, k)] : <<f, k>> \in UNION {{<<g, j>> : j \in 0..NMax(g)} : g \in Fns}}
 
